@@ -49,6 +49,8 @@ class Ids:
             return i
         if f == 'str':
             return 'n%03d' % i if i >= 0 else 'm%03d' % (-i)
+        if f == 'us':         # text with the character the path algorithms use as a separator in DAG node names
+            return 'a_n_%03d' % i if i >= 0 else 'a_m_%03d' % (-i)
         if f == 'ustr':       # non-ASCII text (encodable in latin-1 / cp1252 as well as utf-8)
             return '\u00e9%03d' % i if i >= 0 else '\u00fc%03d' % (-i)
         if f == 'tuple':
@@ -63,6 +65,10 @@ class Ids:
             return x
         if f == 'str':
             return int(x[1:]) if x[0] == 'n' else -int(x[1:])
+        if f == 'us':
+            if x[:4] not in ('a_n_', 'a_m_'):
+                raise ValueError('node id %r is not one of the ids that were used' % (x,))
+            return int(x[4:]) if x[2] == 'n' else -int(x[4:])
         if f == 'ustr':
             if x[0] not in '\u00e9\u00fc':
                 raise ValueError('node id %r is not one of the ids that were written' % (x,))
@@ -242,7 +248,7 @@ def encode_op(op):
         return [90, r, STATS.index(which), u or 0, v or 0]
     if k == 'iet':
         _, r, sel, u = op
-        return [91, r, IETS.index(sel), u or 0]
+        return [91, r, IETS.index('global' if sel in ('outglobal', 'inglobal') else sel), u or 0]
     if k in ('rtsnap', 'rtint'):
         return [80 if k == 'rtsnap' else 81, op[1], op[2]]
     if k == 'rtnl':
@@ -669,6 +675,10 @@ class Impl:
                     res = (D.inter_event_time_distribution(G) if F else G.inter_event_time_distribution())
                 elif sel == 'node':
                     res = (D.inter_event_time_distribution(G, I.to(u)) if F else G.inter_event_time_distribution(I.to(u)))
+                elif sel == 'outglobal':     # the in/out variants without a node are the global distribution
+                    res = G.inter_out_event_time_distribution()
+                elif sel == 'inglobal':
+                    res = G.inter_in_event_time_distribution()
                 elif sel == 'out':
                     res = G.inter_out_event_time_distribution(I.to(u))
                 else:
